@@ -223,8 +223,18 @@ func c18roundtrip(r *kernel.Run) {
 	if rfail >= 0 && rfail < effEnd {
 		effEnd = rfail
 	}
+	// callers may read every frame into the same message value (the handshake does): ReadMsg must leave in it
+	// exactly the frame just read
+	reuse := r.Bool("reuse_message_value")
+	shared := &protocoltypes.AppMessageSend_Request{}
+	if reuse {
+		r.Probe("message_value_reused")
+	}
 	for i, f := range frames {
 		got := &protocoltypes.AppMessageSend_Request{}
+		if reuse {
+			got = shared
+		}
 		err := rd.ReadMsg(got)
 		if c := c18bufcap(rd); c > 2*limit+64 { // generous: allocator size-class rounding is not "allocating beyond the limit"
 			r.Violate("alloc", "buffer-beyond-limit", "reader buffer capacity %d exceeds limit %d after frame %d", c, limit, i)
@@ -280,13 +290,19 @@ func c18garbage(r *kernel.Run) {
 	v := c18variant(r.Pick("variant", 3))
 	limit := []int{8, 64, 300, 4096}[r.Pick("limit", 4)]
 	var data []byte
+	var declared uint64 // kind 1: the length the first prefix declares
 	kind := r.Pick("kind", 5)
 	switch kind {
 	case 0: // random bytes
 		data = r.Bytes("garbage", 0, 64)
-	case 1: // huge declared length, no body
-		huge := []uint64{1 << 31, 1<<31 - 1, 1 << 32, 1<<32 - 1, 1 << 62, 1 << 63, 1<<64 - 1, uint64(limit) + 1, uint64(limit)}[r.Pick("huge", 9)]
+	case 1: // huge declared length, no body (or a body as long as the low 32 bits of the length say)
+		huge := []uint64{1 << 31, 1<<31 - 1, 1 << 32, 1<<32 - 1, 1 << 62, 1 << 63, 1<<64 - 1, uint64(limit) + 1, uint64(limit),
+			1<<32 + 3, 1<<40 + 3, 5 << 32, 1<<32 + uint64(limit)}[r.Pick("huge", 13)]
 		data = append(lenPrefix(v, huge), r.Bytes("tail", 0, 16)...)
+		declared = huge
+		if v != c18Varint {
+			declared = uint64(uint32(huge)) // what the 4-byte prefix can say
+		}
 	case 2: // over-long varint
 		n := r.Int("cont", 9, 14)
 		data = bytes.Repeat([]byte{0xff}, n)
@@ -327,6 +343,10 @@ func c18garbage(r *kernel.Run) {
 			return
 		}
 		okFrames++
+		if kind == 1 && okFrames == 1 && declared > uint64(limit) {
+			r.Violate("bound", "oversize-accepted", "a frame whose length prefix declares %d bytes was accepted with limit %d (variant %s)", declared, limit, v)
+			return
+		}
 		if kind == 4 {
 			r.Violate("bound", "oversize-accepted", "frame of limit+1=%d bytes accepted", limit+1)
 			return
